@@ -300,6 +300,30 @@ def run(chk, db):
     from .. import tsrules
     from . import c13
     c13.typestate(chk, db, prefix='TS.')
+    # initialising a thread's slot reads the caller's initialiser, it does not consume it: with a non-const lvalue argument the
+    # forwarding parameter is an lvalue reference, and std::move on it empties an object that other threads initialise from too
+    chk.rule('MV', 'ThreadLocal members never std::move a parameter that is bound to the caller\'s lvalue (they std::forward)', minimum=2)
+    seen_mv = {}
+    for f in db.fns:
+        if f.get('rect') != 'nop::ThreadLocal' or 'body' not in f:
+            continue
+        pids = {p.get('id'): p for p in f['params']}
+        lv = [p for p in f['params'] if p['t'].strip().endswith('&') and not p['t'].strip().endswith('&&') and not p['t'].strip().startswith('const ')]
+        if not lv:
+            continue
+        bad = []
+        for c in ir.calls(f['body']):
+            cal = c.get('callee') or {}
+            if cal.get('n') == 'move' and (cal.get('q') or '').startswith('std::move') and len(c.get('args', [])) == 1:
+                a = ir.strip_all_casts(c['args'][0])
+                if a.get('k') == 'ref' and a.get('id') in pids and pids[a['id']] in lv:
+                    bad.append(pids[a['id']]['n'])
+        key = (f['file'], f['pat']['l'], f['n'])
+        if key not in seen_mv or (bad and not seen_mv[key][0]):
+            seen_mv[key] = (bad, f)
+    for key, (bad, f) in sorted(seen_mv.items()):
+        chk.decide(not bad, 'MV', facts.site(f), 'ThreadLocal::%s instantiated with an lvalue argument: %s' % (
+            f['n'], ('std::move(%s) moves from the caller\'s object' % bad[0]) if bad else 'the argument is forwarded, not moved from'), function=ir.fn_label(f))
     tsrules.noexcept_rule(chk, db, 'NX', ('nop::ThreadLocal',), minimum=0,
                           text='no ThreadLocal member is declared noexcept while constructing the value from the caller\'s arguments may throw')
     report.selftest(chk, lambda sc, fdb: tsrules.noexcept_rule(sc, fdb, 'NX', ('nop::fx::Holder',)), 'c12.cpp', {'NX': 1})
